@@ -68,6 +68,10 @@ theorem no_silent_stop (ual : List Nat) (input : Bytes) (msgs : List Msg) (warns
 theorem failed_message_is_reported (s : PS) (h : (parseMessage s).1 = none) : (parseMessage s).2.errs ≠ [] :=
   parseMessage_none_err s h
 
+/-- parsing keeps nothing between calls: the packages hold no package-level variable (a memo
+table would grow with every new input and make concurrent calls abort) -/
+theorem facts_no_package_state : Generated.pkgVars = [] := by decide
+
 /-- the lexer emits at most one token per input byte, plus the final one -/
 theorem lex_bounded (ual : List Nat) (fuel : Nat) (m : Mode) (p : Pos) : (lexFuel ual fuel m p).length ≤ fuel := by
   induction fuel generalizing m p with
